@@ -1,4 +1,5 @@
 import CstModel.Props.C04
+import CstModel.Props.Gen
 open Cst.C04
 #print axioms history_transparent
 #print axioms fresh_vs_shared
@@ -17,3 +18,5 @@ open Cst.C04
 #print axioms via_routes_agree
 #print axioms with_cache_is_from_cache
 #print axioms with_interner_forgets
+#print axioms Cst.Gen.mo_into_owned
+#print axioms Cst.Gen.mo_deref
